@@ -225,7 +225,7 @@ pub fn lex(src: &str, syn: Syntax) -> Result<Vec<Tok>, LexError> {
                                 j += 2;
                             }
                         }
-                        Some(b'\n') => return Err(LexError { at: j, msg: "newline in string".into() }),
+                        Some(b'\n') | Some(b'\r') => return Err(LexError { at: j, msg: "newline in string".into() }),
                         Some(_) => j += 1,
                     }
                 }
